@@ -47,6 +47,8 @@ def run(ctx, cases_override=None):
         for line in f:
             r = json.loads(line)
             if r["ev"] != "RT":
+                if r["ev"] in ("Hang", "Abort"):
+                    kinds[r["ev"]] = kinds.get(r["ev"], 0) + 1
                 continue
             k = "compress-" + r["cres"] if r["cres"] != "ok" else ("raw" if r["raw"] else "shrunk:" + r["dres"])
             kinds[k] = kinds.get(k, 0) + 1
